@@ -1,4 +1,294 @@
-(* placeholder while the proofs are being written *)
-From Drummer.Model Require Import Base Election.
-Theorem C14_placeholder : True. Proof. exact I. Qed.
-Print Assumptions C14_placeholder.
+(** C14 — Drummer leadership: holder-only, stable under renewal, bounded takeover.
+    Property theorems only; the model is theories/Election.v, the predicates used
+    below are in theories/ElectionSpec.v, the proofs in proofs/Election*Proofs.v.
+
+    Two granularities.
+    - Safety (holder-only, step-down, CAS exclusivity) is stated for ARBITRARY
+      interleavings and faults: a turn is a program that asks for one DB
+      operation at a time ([prog]); [feed p rs] runs it against an arbitrary
+      list of answers [rs] (whatever other servers and faults did in between),
+      and [otrace] is the event trace of an arbitrary scheduler interleaving the
+      single operations of any number of servers.
+    - Stability and takeover are stated at turn granularity for round-fair,
+      fault-free schedules over any number of servers, from any consistent state
+      (every state reachable with arbitrary faults is consistent).
+    [thr] is deadLeaderMinRound (read from the code by the check, 3 today). *)
+From Drummer.Model Require Import Base Election ElectionSpec ElectionRun.
+From Drummer.Proofs Require Import ElectionProofs ElectionLiveProofs.
+
+(* ------------------------------------------------------------------ *)
+(** ** 1. Holder-only *)
+
+(** A server that is leader at the end of a turn has, in that turn, read the
+    election record and found its own instance id in it — whatever the answers
+    to its operations were (any interleaving, any fault). *)
+Theorem C14_holder_only : forall thr s tick rs s' pn,
+  feed (turn_prog thr s tick) rs = Some (s', pn) -> s_role s' = Leader ->
+  read_own (s_id s) rs /\ s_id s' = s_id s.
+Proof. exact holder_only. Qed.
+Print Assumptions C14_holder_only.
+
+(** The same on the turn function that the correspondence check compares with
+    the implementation (any record, any fault plan). *)
+Theorem C14_holder_only_turn : forall thr who fl r s tick r' s' pn evs,
+  turn thr who fl r s tick = (r', s', pn, evs) -> s_role s' = Leader ->
+  exists t, In (ERead who (Some (s_id s, t))) evs.
+Proof. exact holder_only_turn. Qed.
+Print Assumptions C14_holder_only_turn.
+
+(* ------------------------------------------------------------------ *)
+(** ** 2. Step-down *)
+
+(** A leader whose next turn cannot read the record, or reads another instance
+    id, ends that turn as follower — immediately: the lookup is the turn's only
+    operation (nothing is written). *)
+Theorem C14_step_down : forall thr s tick a rs s' pn,
+  s_role s = Leader ->
+  feed (turn_prog thr s tick) (RRead a :: rs) = Some (s', pn) ->
+  (a = None \/ exists h t, a = Some (h, t) /\ h <> s_id s) ->
+  s_role s' = Follower /\ rs = [] /\ pn = false /\ s_id s' = s_id s.
+Proof. exact step_down. Qed.
+Print Assumptions C14_step_down.
+
+Theorem C14_step_down_turn : forall thr who fl r s tick r' s' pn evs,
+  s_role s = Leader ->
+  turn thr who fl r s tick = (r', s', pn, evs) ->
+  (f_r1 fl <> FOk \/ fst (lookup r) <> s_id s) ->
+  s_role s' = Follower /\ r' = r /\ evs = [ERead who (read_resp (f_r1 fl) r)].
+Proof. exact step_down_turn. Qed.
+Print Assumptions C14_step_down_turn.
+
+(* ------------------------------------------------------------------ *)
+(** ** 3. Two campaigns against the same holder never both succeed *)
+
+(** In the trace of ANY execution (any number of servers, arbitrary scheduling
+    of single DB operations, arbitrary faults): between two successful campaign
+    CASes that both displace holder [h] there is a stored write that made [h]
+    the holder again.  Two campaigns against one tenure never both succeed. *)
+Theorem C14_cas_exclusive : forall thr cs y h l1 e1 l2 e2 l3,
+  otrace thr cs y = l1 ++ e1 :: l2 ++ e2 :: l3 ->
+  displaces h e1 -> displaces h e2 ->
+  exists e, In e l2 /\ stored_by e = Some h.
+Proof. exact cas_exclusive. Qed.
+Print Assumptions C14_cas_exclusive.
+
+(** Sharper: once [self1] has taken the record, an applied CAS by somebody else
+    that names [h] is rejected unless [h] or the proposer got the record back. *)
+Theorem C14_cas_second_rejected : forall thr cs y l1 e1 l2 l3 self1 w2 self2 h tick2 before2 res2 rep2,
+  otrace thr cs y = l1 ++ e1 :: l2 ++ ECas w2 self2 h tick2 before2 true res2 rep2 :: l3 ->
+  stored_by e1 = Some self1 ->
+  self2 <> self1 -> h <> self1 ->
+  (forall e, In e l2 -> stored_by e <> Some h /\ stored_by e <> Some self2) ->
+  res2 = Rejected.
+Proof. exact cas_second_rejected. Qed.
+Print Assumptions C14_cas_second_rejected.
+
+(** The holder changes only through a stored write, and becomes its author. *)
+Theorem C14_holder_changes_by_stored_write : forall thr cs y x,
+  holder (oc_rec (oexec thr cs y)) = Some x ->
+  holder (oc_rec y) = Some x \/ exists e, In e (otrace thr cs y) /\ stored_by e = Some x.
+Proof. exact holder_changes_by_stored_write. Qed.
+Print Assumptions C14_holder_changes_by_stored_write.
+
+(** What a turn proposes: always its own id and the turn's tick; a renewal names
+    no old holder; a campaign names exactly the holder it has just read (or,
+    when the lookup said "no record", the last holder it knew). *)
+Theorem C14_campaign_names_read_holder : forall thr s tick a rs self old tk,
+  In (self, old, tk) (cas_requests (turn_prog thr s tick) (RRead a :: rs)) ->
+  self = s_id s /\ tk = tick /\
+  exists h t, a = Some (h, t) /\
+    ((h = s_id s /\ old = 0) \/
+     (h <> s_id s /\ h <> 0 /\ s_role s = Follower /\ old = h) \/
+     (h = 0 /\ s_role s = Follower /\ old = match s_cur s with Some c => l_id c | None => 0 end)).
+Proof. exact cas_names_read_holder. Qed.
+Print Assumptions C14_campaign_names_read_holder.
+
+(* ------------------------------------------------------------------ *)
+(** ** 4. Reachable states are consistent (precondition of the liveness part) *)
+
+(** From fresh managers with pairwise distinct non-zero instance ids, any
+    schedule of turns with any faults leads to a [consistent] state. *)
+Theorem C14_consistent_reachable : forall thr ids sched,
+  NoDup ids -> ~ In 0 ids -> consistent (run_faulty thr sched (new_sys ids)).
+Proof. exact consistent_reachable. Qed.
+Print Assumptions C14_consistent_reachable.
+
+(** The first server to take a fault-free turn wins the first election, and
+    the resulting state satisfies the precondition of [C14_stable]. *)
+Theorem C14_first_election : forall thr ids m,
+  NoDup ids -> ~ In 0 ids -> (m < length ids)%nat ->
+  stable_start (sys_turn thr nofault (new_sys ids) m) m.
+Proof. exact first_election. Qed.
+Print Assumptions C14_first_election.
+
+(* ------------------------------------------------------------------ *)
+(** ** 5. Stability *)
+
+(** Round-fair ([fair_round L]: nobody moves twice in a round, the leader moves
+    in every round), fault-free, the leader renewing with workerMain's tick, and
+    1 <= deadLeaderMinRound.  At EVERY point [p] of such a schedule (complete
+    rounds [rs] plus a prefix [r1] of a round): the record still names L, L is
+    leader, every other server that has moved is a follower whose static count
+    is at most 1 (<= thr, so it never considers the leader dead), and no server
+    other than L has issued a proposal (no campaign). *)
+Theorem C14_stable : forall thr y L rs r1 r2,
+  1 <= thr -> stable_start y L ->
+  Forall (fair_round L) rs -> fair_round L (r1 ++ r2) ->
+  let p := concat rs ++ r1 in
+  let y' := run_sched thr p y in
+  holder (y_rec y') = Some (id_at y L) /\
+  is_leader_at y' L = true /\
+  (forall f, In f p -> f <> L -> is_leader_at y' f = false /\ static_at y' f <= 1) /\
+  (forall e, In e (sched_events thr p y) -> ev_who e <> L -> is_proposal e = false).
+Proof. exact stable. Qed.
+Print Assumptions C14_stable.
+
+(* ------------------------------------------------------------------ *)
+(** ** 6. Bounded takeover *)
+
+(** The record names [h]; no server of the active set [A] has instance id [h]
+    (the holder stopped, or its process is gone); the servers of A take turns
+    round-fair ([full_round A]: each exactly once per round) and fault-free.
+    Then after deadLeaderMinRound + 2 rounds there is a server W of A such that
+    at every later point of any such schedule the record names W, W is leader and
+    every other server of A is a follower: exactly one of them is leader, for good. *)
+Theorem C14_takeover : forall thr y A h t0 rs1,
+  1 <= thr -> consistent y ->
+  A <> [] -> NoDup A -> (forall f, In f A -> (f < length (y_ws y))%nat) ->
+  y_rec y = Some (h, t0) -> (forall f, In f A -> id_at y f <> h) ->
+  Forall (full_round A) rs1 -> N.of_nat (length rs1) = thr + 2 ->
+  exists W, In W A /\
+    forall rs2 r1 r2, Forall (full_round A) rs2 -> full_round A (r1 ++ r2) ->
+      let y' := run_sched thr r1 (run_rounds thr rs2 (run_rounds thr rs1 y)) in
+      holder (y_rec y') = Some (id_at y W) /\
+      forall f, In f A -> is_leader_at y' f = Nat.eqb f W.
+Proof. exact takeover. Qed.
+Print Assumptions C14_takeover.
+
+(** ... in particular from every state reachable with arbitrary faults. *)
+Theorem C14_takeover_reachable : forall thr ids sched A h t0 rs1,
+  NoDup ids -> ~ In 0 ids ->
+  let y := run_faulty thr sched (new_sys ids) in
+  1 <= thr ->
+  A <> [] -> NoDup A -> (forall f, In f A -> (f < length (y_ws y))%nat) ->
+  y_rec y = Some (h, t0) -> (forall f, In f A -> id_at y f <> h) ->
+  Forall (full_round A) rs1 -> N.of_nat (length rs1) = thr + 2 ->
+  exists W, In W A /\
+    forall rs2 r1 r2, Forall (full_round A) rs2 -> full_round A (r1 ++ r2) ->
+      let y' := run_sched thr r1 (run_rounds thr rs2 (run_rounds thr rs1 y)) in
+      holder (y_rec y') = Some (id_at y W) /\
+      forall f, In f A -> is_leader_at y' f = Nat.eqb f W.
+Proof. exact takeover_reachable. Qed.
+Print Assumptions C14_takeover_reachable.
+
+(* ------------------------------------------------------------------ *)
+(** ** Non-vacuity (closed by computation) *)
+
+(** holder-only / step-down: a follower that wins an election, and a leader that
+    is displaced and steps down. *)
+Example C14_ex_holder_only :
+  feed (turn_prog 3 (new_server 7) 1)
+       [RRead (Some (0, 0)); RSess true; RCas (Some Updated); RRead (Some (7, 1))]
+  = Some (mkS 7 Leader None true, false).
+Proof. vm_compute. reflexivity. Qed.
+
+Example C14_ex_step_down :
+  feed (turn_prog 3 (mkS 7 Leader None true) 5) [RRead (Some (9, 2))]
+  = Some (mkS 7 Follower (Some (mkL 9 2 0)) true, false) /\
+  feed (turn_prog 3 (mkS 7 Leader None true) 5) [RRead None]
+  = Some (mkS 7 Follower None true, false).
+Proof. vm_compute. split; reflexivity. Qed.
+
+(** CAS exclusivity: servers 1 and 2 (ids 9, 4) both see holder 7 unchanged and
+    campaign against it, their operations interleaved one by one (thr = 0 to keep
+    the trace short); exactly the first CAS displaces 7, the second is rejected. *)
+Definition ex_cs : list choice :=
+  [CStart 0 1; COp 0 FOk; COp 0 FOk; COp 0 FOk; COp 0 FOk;
+   CStart 1 1; COp 1 FOk; CStart 2 1; COp 2 FOk;
+   CStart 1 2; CStart 2 2; COp 1 FOk; COp 2 FOk; COp 1 FOk; COp 2 FOk;
+   COp 2 FOk; COp 1 FOk; COp 2 FOk; COp 1 FOk]%nat.
+
+Example C14_ex_cas_exclusive :
+  otrace 0 ex_cs (new_ocfg [7; 9; 4]) =
+  [ERead 0 (Some (0, 0)); ESess 0 true; ECas 0 7 0 1 None true Updated true; ERead 0 (Some (7, 1));
+   ERead 1 (Some (7, 1)); ERead 2 (Some (7, 1)); ERead 1 (Some (7, 1)); ERead 2 (Some (7, 1));
+   ESess 1 true; ESess 2 true;
+   ECas 2 4 7 2 (Some (7, 1)) true Updated true;
+   ECas 1 9 7 2 (Some (4, 2)) true Rejected true;
+   ERead 2 (Some (4, 2)); EClose 1]
+  /\ displaces 7 (ECas 2 4 7 2 (Some (7, 1)) true Updated true).
+Proof. split; [vm_compute; reflexivity|]. cbn. repeat split; discriminate. Qed.
+
+(** stability: three servers, server 1 wins the first election, then rounds in
+    changing orders; the hypotheses of [C14_stable] hold ... *)
+Definition ex_y1 : sys := sys_turn 3 nofault (new_sys [7; 9; 4]) 1.
+
+Example C14_ex_stable_hyps :
+  stable_start ex_y1 1 /\
+  Forall (fair_round 1) [[0; 1; 2]; [2; 1; 0]; [1; 2]]%nat /\ fair_round 1 ([2; 0] ++ [1])%nat.
+Proof.
+  split.
+  - apply C14_first_election; [repeat constructor; cbn; intuition discriminate|cbn; intuition discriminate|cbn; lia].
+  - unfold fair_round. repeat constructor; cbn; intuition discriminate.
+Qed.
+
+(** ... and the computed run shows what the theorem says *)
+Example C14_ex_stable_run :
+  let y' := run_sched 3 (concat [[0; 1; 2]; [2; 1; 0]; [1; 2]] ++ [2; 0])%nat ex_y1 in
+  y_rec y' = Some (9, 4) /\ leaders_of y' = [false; true; false] /\
+  map (static_at y') [0; 1; 2]%nat = [0; 0; 1].
+Proof. vm_compute. repeat split; reflexivity. Qed.
+
+(** takeover: a history with a failed campaign (lost proposal), then server 1
+    (id 9) wins and renews once and stops; A = {0, 2}; thr = 3. *)
+Definition ex_hist : list (nat * faults) :=
+  [(0, F 0 0 2 0); (1, nofault); (1, nofault)]%nat.
+Definition ex_y0 : sys := run_faulty 3 ex_hist (new_sys [7; 9; 4]).
+
+Example C14_ex_takeover_hyps :
+  NoDup [7; 9; 4] /\ ~ In 0 [7; 9; 4] /\
+  [0; 2]%nat <> [] /\ NoDup [0; 2]%nat /\ (forall f, In f [0; 2]%nat -> (f < length (y_ws ex_y0))%nat) /\
+  y_rec ex_y0 = Some (9, 2) /\ (forall f, In f [0; 2]%nat -> id_at ex_y0 f <> 9) /\
+  Forall (full_round [0; 2]%nat) [[0; 2]; [2; 0]; [0; 2]; [2; 0]; [2; 0]]%nat /\
+  N.of_nat (length [[0; 2]; [2; 0]; [0; 2]; [2; 0]; [2; 0]]%nat) = 3 + 2.
+Proof.
+  assert (P : Permutation.Permutation [2; 0]%nat [0; 2]%nat) by apply Permutation.perm_swap.
+  repeat split.
+  - repeat constructor; cbn; intuition discriminate.
+  - cbn; intuition discriminate.
+  - discriminate.
+  - repeat constructor; cbn; intuition discriminate.
+  - intros f [<-|[<-|[]]]; vm_compute; lia.
+  - intros f [<-|[<-|[]]]; vm_compute; discriminate.
+  - unfold full_round. repeat constructor; try exact P; apply Permutation.Permutation_refl.
+Qed.
+
+(** the bound is attained: after thr + 1 = 4 rounds nobody of A leads (server 1
+    is the stopped holder, still believing), after thr + 2 = 5 rounds exactly one does *)
+Example C14_ex_takeover_run :
+  let y4 := run_rounds 3 [[0; 2]; [2; 0]; [0; 2]; [2; 0]]%nat ex_y0 in
+  let y5 := run_rounds 3 [[0; 2]; [2; 0]; [0; 2]; [2; 0]; [2; 0]]%nat ex_y0 in
+  let y9 := run_rounds 3 [[0; 2]; [2; 0]; [2; 0]; [0; 2]]%nat y5 in
+  (y_rec y4 = Some (9, 2) /\ leaders_of y4 = [false; true; false]) /\
+  (y_rec y5 = Some (4, 5) /\ leaders_of y5 = [false; true; true]) /\
+  (y_rec y9 = Some (4, 9) /\ leaders_of y9 = [false; true; true]).
+Proof. vm_compute. repeat split; reflexivity. Qed.
+
+(* ------------------------------------------------------------------ *)
+(** ** 7. The model's CAS is the DB model's applyKVUpdate *)
+
+From Drummer.Model Require DB.
+From Drummer.Proofs Require ElectionDBProofs.
+
+(** [cas] / [lookup] of the election model are [DB.kv_update] / [DB.lookup_kv]
+    (the model of db.go used for C13) on the non-finalized election-key record. *)
+Theorem C14_cas_is_db_cas : forall d v self old tick,
+  v <> 0 -> ElectionDBProofs.rec_open d ->
+  exists d' code,
+    DB.kv_update d (ElectionDBProofs.vote v self old tick) = Some (d', code) /\
+    ElectionDBProofs.rec_of d' = fst (cas (ElectionDBProofs.rec_of d) self old tick) /\
+    (code = 0 <-> snd (cas (ElectionDBProofs.rec_of d) self old tick) = Updated) /\
+    (code = 0 \/ code = 2) /\
+    ElectionDBProofs.rec_open d'.
+Proof. exact ElectionDBProofs.cas_is_kv_update. Qed.
+Print Assumptions C14_cas_is_db_cas.
